@@ -20,8 +20,8 @@ Unit(dts, groups, short) == [short |-> short, rand |-> 0, init |-> "DISABLED", s
                              groups |-> groups, dts |-> dts, dtpos |-> 0]
 
 Dests == {<<"gshort", 3>>, <<"ggroup", 1>>, <<"gbcast", 0>>}
-Alphabet1 == {<<"none", 0>>, <<"err", 0>>, <<"val", 0>>, <<"val", 1>>, <<"val", 6>>, <<"val", 254>>, <<"val", 255>>}
-AlphabetN == {<<"none", 0>>, <<"err", 0>>, <<"val", 0>>, <<"val", 1>>, <<"val", 6>>, <<"val", 253>>, <<"val", 254>>}
+Alphabet1 == {<<"none", 0>>, <<"err", 0>>, <<"err", 254>>, <<"val", 0>>, <<"val", 1>>, <<"val", 6>>, <<"val", 254>>, <<"val", 255>>}
+AlphabetN == {<<"none", 0>>, <<"err", 0>>, <<"err", 254>>, <<"val", 0>>, <<"val", 1>>, <<"val", 6>>, <<"val", 253>>, <<"val", 254>>}
 
 (* --algorithm Queries {
   variables
